@@ -15,7 +15,8 @@
 //
 // Input (-in): ndjson schedules {"id","lim","req":{"p1":100,..},"present":["p1",..],"steps":[{"n","p","out"}]}
 // as exported by TLC from spec/Handoff.tla (a step that is not enabled in the real state is skipped and
-// logged with skip=1); or -random N -seed S -len K -pods P: seeded random schedules over the enabled steps.
+// logged with skip=1; a panicking bind attempt on a terminally failed request counts as not enabled unless
+// -panic-terminal is given); or -random N -seed S -len K -pods P: seeded random schedules over the enabled steps.
 // Output (-out): ndjson trace: a Scenario line, then one line per step with the projection of the real
 // stores (`st`), of the real snapshot (`snap`, cycles only) and of the reconcile result (`rec`).
 // Integers and strings only; -1 = nil backoffLimit; quantities in centi-GPU / milli-CPU.
@@ -1140,8 +1141,8 @@ func (w *world) enabled(s step, maxRestarts, maxFlips int) bool {
 		if s.Out == "faillabel" {
 			return w.q[s.P] && w.reach(s.P) && w.sc.Req[s.P] < 100 && w.sc.Nd[s.P] == 2
 		}
-		if s.Out == "panic" {
-			return w.q[s.P] && w.reach(s.P)
+		if s.Out == "panic" { // environment of the model (PanicEnabled in spec/Handoff.tla) unless -panic-terminal
+			return w.q[s.P] && w.reach(s.P) && (*panicTerminal || !w.terminal(s.P))
 		}
 		return w.q[s.P]
 	case "BindDoneStatusLost":
@@ -1289,7 +1290,7 @@ func runScenario(sc scenario, pods []string, tw *tracefmt.Writer, rnd *rand.Rand
 		add(step{N: "NodeAdded"}, 3)
 		for _, p := range pods {
 			add(step{N: "BinderAttempt", P: p, Out: "fail"}, 6)
-			if w.panics < 6 && !w.terminal(p) && (w.sc.Req[p] >= 100 || w.leaks < 3) { // the environment of the model: see PanicEnabled in spec/Handoff.tla
+			if w.panics < 6 && (w.sc.Req[p] >= 100 || w.leaks < 3) {
 				add(step{N: "BinderAttempt", P: p, Out: "panic"}, 3)
 			}
 			if w.refusals < 3 {
@@ -1309,6 +1310,8 @@ func runScenario(sc scenario, pods []string, tw *tracefmt.Writer, rnd *rand.Rand
 		emit(cands[rnd.Intn(len(cands))])
 	}
 }
+
+var panicTerminal = flag.Bool("panic-terminal", false, "execute a panicking bind attempt also on a terminally failed request (outside the environment of the model)")
 
 func main() {
 	in := flag.String("in", "", "ndjson schedules exported by TLC")
